@@ -341,3 +341,13 @@ INSTANCES.update({
     "latt_deep": (dict(seq(["lenter", "lexit", "lprops", "lwith", "levent"], MaxOps=6, MaxSpans=1, MaxRoots=1, MaxLocal=2, MaxAtt=3, MaxScopes=1, MaxCycles=0),
                        prefix=True, prog={1: [S("root", tr=1, smp=True), S("setlp", h=101)]}), "terminal", {}),
 })
+
+# adapters polled while the thread already has a (sampled) local parent, around sampled and unsampled spans
+# (seeded S36: poll skips set_local_parent for an unsampled span, so the outer parent shows through)
+INSTANCES.update({
+    "poll_under_lp": (dict(pollinst(["fut", "str"], menu=["fnew", "fpoll", "fdrop", "ctxl"], MaxOps=4, MaxSpans=3, MaxRoots=3, MaxTraces=2, MaxScopes=2,
+                                    inner=["none", "ls", "ctx"], MaxCycles=0, probe_ctx=True),
+                           prefix=True, prog={1: [S("root", tr=1, smp=True), S("setlp", h=101), S("root", tr=2, smp=False), S("root", tr=3, smp=True)]}),
+                      "terminal", {}),
+})
+
